@@ -242,7 +242,7 @@ func driveC02(seed int64, tier, out, replay string) {
 			obs.Count("with_client_variables")
 		}
 		for _, f := range op.Features {
-			if strings.HasPrefix(f, "input_object") || strings.HasPrefix(f, "variable_inside") {
+			if strings.HasPrefix(f, "input_object") || strings.HasPrefix(f, "variable_inside") || f == "custom_scalar_argument" {
 				obs.Count("op_" + f)
 			}
 		}
